@@ -105,9 +105,14 @@ static int g_cmp_style = 0; // 0: -1/0/+1   1: key difference   2: huge magnitud
 // call on it means a sentinel was taken for a member
 static uintptr_t g_cmp_forbid_lo = 0, g_cmp_forbid_len = 0;
 static bool g_cmp_forbidden_hit = false;
+// the caller's key of a sorted insertion: the documentation puts it on the right ("the key on the right for insertion
+// sort"), which is what lets a comparator take a record on the left and a bare key on the right
+static void const *g_cmp_key = nullptr;
+static bool g_cmp_key_on_left = false;
 static int elem_cmp(void const *l, void const *r)
 {
     ++g_cmp_calls;
+    if (g_cmp_key && l == g_cmp_key && r != g_cmp_key) g_cmp_key_on_left = true;
     if (g_cmp_forbid_len && ((uintptr_t)l - g_cmp_forbid_lo < g_cmp_forbid_len || (uintptr_t)r - g_cmp_forbid_lo < g_cmp_forbid_len)) { g_cmp_forbidden_hit = true; return 0; }
     uint32_t a = elem_key(l, g_cb_z), b = elem_key(r, g_cb_z);
     if (a == b) return 0;
